@@ -123,8 +123,8 @@ type c07State struct {
 
 func init() {
 	Register(&Prop{
-		ID:   "C07",
-		Rule: "a silent journal J of 3-5 entries from G (clean pool), one entry e damaged by one operator (random bytes incl. NUL/invalid UTF-8, truncation at a column, stray quote/bracket/operator, deleted/duplicated/swapped lines); oracle: every other entry is still extracted with the same content (model comparison, exact rationals) at a start line shifted by exactly the line delta, code-less diagnostics of the damaged text lie only on lines of e, and every coded diagnostic of other entries is unchanged after the shift. Non-trivial = the damaged text differs from J and J has >=2 other entries; distinct by hash of damaged text.",
+		ID:    "C07",
+		Rule:  "a silent journal J of 3-5 entries from G (clean pool), one entry e damaged by one operator (random bytes incl. NUL/invalid UTF-8, truncation at a column, stray quote/bracket/operator, deleted/duplicated/swapped lines); oracle: every other entry is still extracted with the same content (model comparison, exact rationals) at a start line shifted by exactly the line delta, code-less diagnostics of the damaged text lie only on lines of e, and every coded diagnostic of other entries is unchanged after the shift. Non-trivial = the damaged text differs from J and J has >=2 other entries; distinct by hash of damaged text.",
 		Notes: []string{"Y directives are never damaged (later partial dates legitimately depend on them)", "undeclared-* warnings are not compared when the damaged entry is a declaration", "line-structural damages are applied only to entries separated by empty lines (an orphaned posting line directly below another transaction legitimately joins it)"},
 		Cases: func(tier string) int64 {
 			if tier == "thorough" {
